@@ -503,7 +503,11 @@ func (r *run) execSlice(fr *frame, st *State, x *ssa.Slice, reach string) Val {
 			narr = c
 		}
 		// a sub-slice shares the backing array: never "owned" for append purposes unless the base was
-		return Val{Term: fmt.Sprintf("(mk_%s %s (- %s %s) (- %s %s) (own_%s %s) (nn_%s %s))", base.Sort, narr, hi, lo, mx, lo, m, base.Term, m, base.Term), Sort: base.Sort, Type: x.Type()}
+		res := Val{Term: fmt.Sprintf("(mk_%s %s (- %s %s) (- %s %s) (own_%s %s) (nn_%s %s))", base.Sort, narr, hi, lo, mx, lo, m, base.Term, m, base.Term), Sort: base.Sort, Type: x.Type()}
+		if base.Rune != nil {
+			res.Rune = &runeSrc{S: base.Rune.S, Lo: fmt.Sprintf("(+ %s %s)", base.Rune.Lo, lo), Hi: fmt.Sprintf("(+ %s %s)", base.Rune.Lo, hi)}
+		}
+		return res
 	case *types.Pointer: // pointer to array -> slice (slice literals, variadic packs)
 		if base.Loc == nil {
 			r.unsupported("slicing a heap array pointer")
@@ -751,12 +755,25 @@ func (r *run) execConvert(fr *frame, st *State, x *ssa.Convert, reach string) Va
 		if et.Kind() == types.Int32 {
 			fn = "runes_of"
 		}
-		return Val{Term: fmt.Sprintf("(%s %s)", fn, v.Term), Sort: ts, Type: to}
+		res := Val{Term: fmt.Sprintf("(%s %s)", fn, v.Term), Sort: ts, Type: to}
+		if fn == "runes_of" {
+			// []rune(s): one element per character; assumed contract of the conversion
+			// (rlenS is the character count of s, between 0 and its byte length)
+			rl := fmt.Sprintf("(rlenS %s)", v.Term)
+			r.assume("true", fmt.Sprintf("(and (= (len_Int %s) %s) (<= (len_Int %s) (cap_Int %s)) (own_Int %s) (nn_Int %s))", res.Term, rl, res.Term, res.Term, res.Term, res.Term))
+			res.Rune = &runeSrc{S: v.Term, Lo: "0", Hi: rl}
+			r.assumed["assumed contract: []rune(s) has one element per character (rlenS), string(runes[a:b]) is the character slice rsubS(s,a,b)"] = true
+		}
+		return res
 	case strings.HasPrefix(fs, "Slice_") && ts == "String":
 		et := from.Underlying().(*types.Slice).Elem().Underlying().(*types.Basic)
 		fn := "string_of_bytes"
 		if et.Kind() == types.Int32 {
 			fn = "string_of_runes"
+		}
+		if v.Rune != nil && fn == "string_of_runes" {
+			// string(runes[a:b]) of runes := []rune(s): the characters [a,b) of s
+			return Val{Term: fmt.Sprintf("(rsubS %s %s %s)", v.Rune.S, v.Rune.Lo, v.Rune.Hi), Sort: "String", Type: to}
 		}
 		return Val{Term: fmt.Sprintf("(%s %s)", fn, v.Term), Sort: "String", Type: to}
 	case fs == ts:
